@@ -5,9 +5,10 @@ FS = 'rolling/* (FS and Arc layer) trusted against the BlockRead/BlockWrite trai
 LEMMAS = {
     'C01': ['vspec::lemma_parse_ser_item', 'vspec::lemma_parse_ser_items', 'vspec::lemma_parse_ser_entry', 'vspec::lemma_replay_items_is_append_all', 'vspec::lemma_ser_items_empty'],
     'C05': ['vspec::lemma_split_filter', 'mem::queue::MemQueue::lemma_truncate_mid'],
-    'C07': ['vspec::lemma_frame_enc_len', 'vspec::lemma_full_frame_ends_block', 'vspec::enc_decreases', 'vspec::lemma_enc_len_bound', 'frame::header::lemma_hdr_roundtrip'],
+    'C07': ['vspec::lemma_frame_enc_len', 'vspec::lemma_full_frame_ends_block', 'vspec::enc', 'vspec::lemma_enc_len_bound', 'frame::header::lemma_hdr_roundtrip',
+            'vroundtrip::lemma_blocks_of', 'vroundtrip::lemma_read_written_frame', 'vroundtrip::lemma_read_written_record', 'vroundtrip::lemma_roundtrip_all'],
     'C08': ['frame::header::lemma_hdr_roundtrip'],
-    'C10': ['vspec::lemma_frame_step_progress', 'vspec::rec_step_decreases', 'vspec::lemma_rec_step_progress'],
+    'C10': ['vspec::lemma_frame_step_progress', 'vspec::rec_step', 'vspec::lemma_rec_step_progress'],
     'C11': ['vspec::lemma_frame_step_progress', 'vspec::lemma_rec_step_progress'],
     'C12': ['vspec::lemma_parse_ser_items', 'vspec::lemma_rec_step_progress'],
     'C15': ['vspec::lemma_enc_len_bound', 'vspec::lemma_ser_entry_len'],
@@ -64,11 +65,12 @@ PROPS = {
         level='proof',
         explain='write_frame / write_record proved to emit exactly frame_enc / enc at every stream position and payload length (O-C15-frame, O-C15-record); '
                 'read_frame / go_next proved to implement frame_step / rec_step on any block content (O-C08-step, O-C12-deliver); header codec inverse (lemma_hdr_roundtrip, K-hdr); '
-                'no frame crosses a block (precondition of BlockWrite::write discharged at every call).',
+                'no frame crosses a block (precondition of BlockWrite::write discharged at every call). '
+                'Composition L-C07 (spec/vroundtrip.rs, lemma_roundtrip_all): for every stream offset and every sequence of entries of any sizes, reading (rec_step) what was written (enc) '
+                'returns exactly the entries, in order, and leaves the reader exactly behind them.',
         kani_quick=['K-hdr'], kani_thorough=[],
         trusted=[FS, 'crc32 uninterpreted'],
-        not_decided=['composition lemma dec(enc(..)) = id over sequences of entries is not machine-checked (both sides are proved against their own specs)',
-                     'file roll-over (RollingWriter::write)'],
+        not_decided=['file roll-over (RollingWriter::write): the mapping byte stream <-> blocks of successive files is trusted'],
     ),
     'C08': dict(
         level='proof',
